@@ -70,6 +70,20 @@ CLAIMED = {
         "note": "floats as reals; transcendental functions uninterpreted with listed axioms (equality modulo field arithmetic and congruence); "
                 "divisions by zero are cut away (counted); f->0 / f->inf limits (sympy.limit) are outside the claim",
     },
+    "C04": {
+        "category": "other",
+        "text": "Two composing obligations on the real code, decided by z3: (1) inductive tokenizer step -- from every tokenizer state (previous "
+                "token none/colon/lcurly/comma/other) one Tokenizer.main_loop call on an arbitrary remaining input of <=5 (7) symbolic characters "
+                "of any code point either raises UnexpectedCharacter/ValueError only, or consumes >=1 character and appends <=1 token satisfying "
+                "the token invariants; since process() is `while chars: main_loop()` this covers inputs of any length whose tokens fit the bound. "
+                "(2) the real Parser.process over lazy token lists: every list of <=4 (6) tokens (16 token classes as solver variables decided "
+                "only when the parser inspects them, identifier texts from a vocabulary, numbers symbolic), plus 8 grammar-derived valid codes "
+                "cut after every prefix with 0..1 (2) positions replaced by arbitrary tokens: only ParsingError/ValueError escape and accepted "
+                "lists give well-formed, serialisable circuits. Counterexamples are rendered to text and replayed through parse_cdc.",
+        "design_ref": "DESIGN.md section 4, C04",
+        "note": "numerals denote finite reals; ASCII classification only for symbolic characters; identifier vocabulary and label list are finite; "
+                "recursion depth and tokens longer than the bound are outside",
+    },
     "C05": {
         "category": "model_checking",
         "text": "The real DataSet constructor and operations are executed symbolically: frequencies (distinct, monotonic, either "
